@@ -77,7 +77,6 @@ func VerifNextConfiguration(current Configuration, currentIndex uint64, command 
 
 func VerifCheckConfiguration(c Configuration) error { return checkConfiguration(c) }
 
-
 // ---- compaction arithmetic (C11) ----
 
 func (r *Raft) VerifCompactLogsWithTrailing(snapIdx, lastLogIdx, trailing uint64) error {
